@@ -282,6 +282,50 @@ let sem_line line =
         | None -> "N") (split_on ',' poss))
   | _ -> failwith "sem: bad line"
 
+(* mode lens: for every node of the wrapped tree (pre-order, the order of [facts]) the minimum
+   and maximum number of characters the reference semantics lets it match, over all boundary
+   start offsets of the given texts; in "tree bs text,text,..." *)
+let rec nodes_of (g : nat) (e : expr) : (expr * nat) list =
+  (e, g) :: (match e with
+    | Concat es | Alt es ->
+        let rec go g l = match l with [] -> [] | x :: r -> nodes_of g x @ go (add g (ngroups x)) r in go g es
+    | Group c -> nodes_of (S g) c
+    | LookAround (c, _) | Repeat (c, _, _, _) | AtomicGroup c -> nodes_of g c
+    | Conditional (c, y, n) ->
+        nodes_of g c @ nodes_of (add g (ngroups c)) y @ nodes_of (add (add g (ngroups c)) (ngroups y)) n
+    | _ -> [])
+
+let lens_line line =
+  match split_on '\t' line with
+  | tree :: _bs :: texts :: _ ->
+      let e = wrap (parse_tree tree) in
+      let ng = int_of_nat (ngroups e) in
+      let texts = List.map bytes_of_hex (split_on ',' texts) in
+      let nodes = nodes_of O e in
+      String.concat "," (List.map (fun (sub, g) ->
+        let mn = ref max_int and mx = ref (-1) in
+        List.iter (fun t ->
+          let ti = List.map int_of_nat t in
+          let arr = Array.of_list ti in
+          let n = Array.length arr in
+          let isb i = i = n || (arr.(i) land 0xC0) <> 0x80 in
+          (* char index of every boundary *)
+          let cidx = Array.make (n + 1) 0 in
+          let c = ref 0 in
+          for i = 0 to n do if isb i then (cidx.(i) <- !c; incr c) done;
+          let cx = { c_text = t; c_pos = O; c_skipped = false } in
+          for s = 0 to n do
+            if isb s then
+              List.iter (fun (ix', _) ->
+                let j = int_of_nat ix' in
+                if j <= n && isb j then begin
+                  let d = cidx.(j) - cidx.(s) in
+                  if d < !mn then mn := d; if d > !mx then mx := d end)
+                (sem cx sub (S (length t)) g (nat_of_int s, init_caps (nat_of_int ng)))
+          done) texts;
+        if !mx < 0 then "-" else Printf.sprintf "%d:%d" !mn !mx) nodes)
+  | _ -> failwith "lens: bad line"
+
 (* ---------------- api ---------------- *)
 
 let span a b = Printf.sprintf "%s-%s" (us a) (us b)
@@ -414,6 +458,7 @@ let () =
     | "prog" -> prog_line
     | "run" -> run_line
     | "sem" -> sem_line
+    | "lens" -> lens_line
     | "api" -> api_line
     | "expand" -> expand_line
     | "escape" -> escape_line
